@@ -18,36 +18,39 @@ COQ_RUN = "Batch.run_case"
 TABLE_CONSTRUCTS = ["br_loop_cond_code", "br_report_steps_code", "br_model_data_code", "br_param_values_code",
                     "br_runs_list_code", "br_results_code", "br_skeleton"]
 SHRINK = True
-RULE = ("histories = 1-2 batch_run calls on the scripted model class BM: parameter dictionaries over n, stop, ic, sc, ar, churn, k "
-        "(ints, None) and two pass-through parameters (strings, dicts, lists as values) given as scalars, strings, lists, tuples, "
-        "ranges (incl. empty range -> no runs, empty list -> ValueError), numpy 0-d arrays (one value) and 1-d int arrays (their "
-        "elements, empty -> no runs); display_progress on in 15%; iterations 1-3, max_steps 0-6, "
-        "data_collection_period -1/1/2/3; models that stop early, collect 0-3 times at construction and/or inside step "
-        "(model-level and agent-level state changing between collects of one step), with/without "
-        "agent reporters, with agent churn; a few calls with number_processes 2-3 (run in a helper process, compared with "
-        "the serial call); the multiset of rows is observed; non-trivial = at least 2 rows; distinct = by SHA1")
+RULE = ("histories = 1-2 batch_run calls (sometimes the very same call twice) on the scripted model class BM: parameter dictionaries "
+        "over n, stop, ic, sc, ar, churn, k, mc (ints, None) and two pass-through parameters (strings, dicts, lists, bool, floats incl. "
+        "0.1, an int beyond 2^53 as values) given as scalars, strings, lists, tuples, ranges (incl. empty range -> no runs, empty list -> "
+        "ValueError), numpy 0-d arrays (one value) and 1-d int arrays (their elements, empty -> no runs); iterations 1-3, max_steps "
+        "-1..6, data_collection_period -1/1/2/3/7, display_progress on in 15%; models that stop early, collect 0-3 times at construction "
+        "and 0-3 times inside every step with model-level and agent-level changes between the collects of one step (every agent "
+        "removed / one created / the first removed / every agent removed at the final step), with/without agent reporters, with "
+        "agent churn; three streams per run: 260 random cases, a 120-case slice of the targeted sweep (collect patterns x stop x "
+        "max_steps x period; churn between collects; all pairs of parameter shapes), 40 cases of churn between collects; 4 (quick) / "
+        "40 (thorough) calls with number_processes 2-3 run in a helper process and compared with the serial call and row by row "
+        "with their run; the multiset of rows is observed; non-trivial = at least 2 rows; distinct = by SHA1")
 TRUSTED_BASE = [
     "Coq 8.16.1 kernel (coqc); vm_compute used for finite facts and for evaluating the model in the correspondence",
-    "no axioms: Print Assumptions reports 'Closed under the global context' for every C13 theorem",
-    "harness/props/C13.py driver+observer, props/batch_models.py (the batch-run model class, mirrored by Batch.v:bm_init/bm_step) "
-    "and the Gallina literal printer (T2, differential testing, not a proof)",
-    "harness/pyexpr.py + harness/tables/datacollect_batch_code.py (code-level T1): the loop condition, the reported-steps "
-    "computation, the position lookup / model_data comprehension, the per-parameter str/empty/iterable decision and the runs-list "
-    "loop nest with its RunId counter are translated from the working tree on every run and bridged to the model "
-    "(Proofs/BatchBridge.v); the glue statements of batch_run/_model_run_func/_collect_data are pinned verbatim",
-    "Model/Batch.v is a hand transcription of mesa/batchrunner.py on top of Model/DataCollector.v",
-    "multiprocessing is not modelled: completion order is an arbitrary permutation of the runs (theorem C13_order_irrelevant); "
-    "rows are compared as multisets",
+    "no axioms: Print Assumptions reports 'Closed under the global context' for all 19 theorems of Properties/C13.v",
+    "harness/props/C13.py driver+observer, props/batch_models.py (the batch-run model class, mirrored by Batch.v:bm_init/bm_mutate/"
+    "bm_collects/bm_step) and the Gallina literal printer (T2, differential testing, not a proof)",
+    "harness/pyexpr.py + harness/tables/datacollect_batch_code.py (code-level T1 on alpha-normalised functions): the loop condition "
+    "(gen_loop_cond), the reported-steps computation (gen_report_steps), the position lookup / model_data comprehension "
+    "(gen_positions, gen_model_data), the per-parameter str / empty / iterable decision (gen_param_values), the runs-list loop nest "
+    "with its RunId counter (gen_runs_list) and the serial / imap_unordered result handling (gen_batch_results) are translated from "
+    "the working tree on every run and bridged to the model in Proofs/BatchBridge.v; the remaining glue of _model_run_func / "
+    "_collect_data is a normalised statement skeleton (gen_batch_skeleton_ok)",
+    "Model/Batch.v is a hand transcription of mesa/batchrunner.py on top of Model/DataCollector.v; b_trace is a ghost field",
+    "multiprocessing is not modelled: the delivery order of imap_unordered is an arbitrary permutation of the work list "
+    "(C13_order_irrelevant, C13_eq_by_hand_of_source); rows are compared as multisets",
     "Uint63 primitive hash only in scratch Cases files, never under a theorem",
 ]
 ASSUMPTIONS = [
     "requested steps = the steps at which the model collected that are multiples of data_collection_period (k >= 1), plus "
-    "the last collection; period -1 = the last collection only",
-    "models collect 0-3 times at construction and 0-3 times inside every step, changing model-level and agent-level state "
-    "between two collections made at the same model.steps (parameter mc: every agent removed, an agent created, the first "
-    "agent removed, every agent removed at the final step before the model stops); a row of step s carries the LAST collection made at s (what "
-    "_agent_records holds); the model class is deterministic",
-    "parameter values are ints/None for the parameters BM interprets; strings, dicts and lists are passed through",
+    "the last collection; period -1 = the last collection only; runs that never collect yield no rows",
+    "a row of step s carries the LAST collection made at s (what _agent_records holds); the model class is deterministic",
+    "parameter values are ints/None (also as numpy scalars) for the parameters BM interprets; everything else is passed through and "
+    "must be echoed in the rows as the same value and type; iterations >= 1 and period in {-1} u {k >= 1} as in the quantifier",
 ]
 NAMES = ["n", "stop", "ic", "sc", "ar", "churn", "k", "tag", "obj", "mc"]
 MKEYS = ["Steps", "Sum", "K", "T"]
@@ -67,7 +70,7 @@ def _gen_param(rng, name, objects):
                     return 1000 + j
             objects.append(o)
             return 1000 + len(objects) - 1
-        pool = ["a", "bc", "relu", ""] if name == "tag" else [{"key": "value"}, [1, 2], {"a": [1]}, "xy", []]
+        pool = ["a", "bc", "relu", ""] if name == "tag" else [{"key": "value"}, [1, 2], {"a": [1]}, "xy", [], True, 0.5, 0.1, 2 ** 60 + 1]
         kind = rng.choice(["str", "list", "tuple"]) if name == "tag" else rng.choice(["list", "list", "tuple"])
         if kind == "str":
             return [name, "str", code(["a", "bc", "sigmoid"])]
@@ -108,7 +111,7 @@ def _gen_op(rng, objects, nproc=1):
         if p:
             params.append(p)
     iterations = rng.choice([1, 1, 2, 3]) if size <= 6 else 1
-    return ["batch", params, iterations, rng.choice([0, 1, 2, 3, 4, 5, 6]), rng.choice([-1, -1, 1, 1, 2, 3]), nproc,
+    return ["batch", params, iterations, rng.choice([0, 1, 2, 3, 4, 5, 6, -1]), rng.choice([-1, -1, 1, 1, 2, 3, 7]), nproc,
             rng.random() < 0.15]        # display_progress
 
 
@@ -121,6 +124,8 @@ def gen_cases(rng, tier):
         ops = [_gen_op(rng, objects, nproc=rng.choice([2, 2, 3]) if i < npar else 1)]
         if i >= npar and rng.random() < 0.2:
             ops.append(_gen_op(rng, objects))
+        elif i >= npar and rng.random() < 0.1:
+            ops.append(json.loads(json.dumps(ops[0])))     # the very same call a second time in the same process
         cases.append({"objects": objects, "ops": ops})
     sweep = list(enumerate_cases(tier))
     rng.shuffle(sweep)
@@ -220,10 +225,12 @@ def call_batch(objects, op, nproc):
         import contextlib
         import io
 
+        given = _py_params(params, objects)
+        before = repr(given)
         with contextlib.redirect_stderr(io.StringIO()):   # the tqdm bar of display_progress=True
-            rows = mesa.batch_run(BM, _py_params(params, objects), number_processes=nproc, iterations=iterations,
+            rows = mesa.batch_run(BM, given, number_processes=nproc, iterations=iterations,
                                   data_collection_period=period, max_steps=max_steps, display_progress=progress)
-        return {"rows": rows, "error": None}
+        return {"rows": rows, "error": None, "mutated": None if repr(given) == before else f"{before} -> {given!r}"}
     except ValueError as e:
         return {"rows": None, "error": [E_VALUE, str(e)]}
     except Exception as e:  # noqa: BLE001
@@ -357,6 +364,8 @@ def run_impl(case):
                  f"batch_run({params}, iterations={iterations}, max_steps={max_steps}, period={period}) raised {res['error'][1]}")
             continue
         rows = res["rows"]
+        if res.get("mutated"):
+            fail("C13/batch_run/mutated-parameters", i, f"batch_run changed the caller's parameters dictionary: {res['mutated']}")
         enc = [enc_row(r, objects) for r in rows]
         # ---- the statement
         combos = [dict(zip(names, [_decode(c, objects) for c in combo])) for combo in itertools.product(*vals)]
@@ -491,13 +500,24 @@ def nontrivial(case):
     return any(len(o) > 2 and o[0] == 0 and o[1] >= 2 for o in case.get("_obs", []))
 
 
-LEVEL_TEXT = ("Machine-checked Coq theorems over a Gallina transcription of _make_model_kwargs / batch_run / _model_run_func / "
-              "_collect_data (as repaired) running a scripted model through the DataCollector model of C12: the design is the "
-              "exact cartesian product, run ids are distinct, any completion order yields a permutation of the serial rows, every "
-              "row repeats its run's parameters, the loop takes min(stop, max_steps) steps, a row's model-level and agent-level "
-              "values come from the same (last) collection made at the row's Step, and the last collection is among the rows. "
-              "Tied to the code by differential evaluation (T2) and an independent oracle that constructs and steps every model by hand.")
-LEVEL_NOTE = ("Theorems are about the model; multiprocessing itself is exercised by a few spawned calls only. Trusted: Coq kernel, the "
-              "driver/observer, the mirrored model class. No axioms.")
-TECHNIQUE = "Coq proof (induction, permutation lemmas, refinement via C12, closed under global context) + vm_compute correspondence"
+LEVEL_TEXT = ("19 machine-checked Coq theorems (closed under the global context) over a Gallina transcription of _make_model_kwargs / "
+              "batch_run / _model_run_func / _collect_data (as repaired) running a scripted model class through the DataCollector model of "
+              "C12: the design is the exact cartesian product and the RunIds are distinct (C13_design_exact, C13_runs_exact); any delivery "
+              "order yields a permutation of the serial rows (C13_order_irrelevant); every row repeats its run's parameters; the loop takes "
+              "exactly min(max_steps, stop) steps and equals stepping by hand (C13_steps_taken, C13_run_model_by_hand, C13_eq_by_hand); for "
+              "EVERY model of the script language - all collect patterns incl. several collects per step with agents removed or created "
+              "in between, early stop, with/without agent reporters - a row's model-level and agent-level values come from one moment, the "
+              "last collection made at the row's Step, the last collection is among the rows and values[positions[-1]] never raises "
+              "(C13_alignment_all_models, C13_last_state_reported_all_models, C13_no_index_error). Six theorems are stated about code "
+              "regenerated from the working tree on every run (code-level T1: loop condition, reported steps, position lookup, parameter "
+              "decision, RunId loop nest, serial / imap_unordered result handling; C13_eq_by_hand_of_source). Tied to the code by that "
+              "translation, by differential evaluation (T2) and by an independent oracle that constructs and steps every model by hand and "
+              "checks every row against the model's own log of what it showed.")
+LEVEL_NOTE = ("Theorems are about the model. Fixed in /repo by this check's findings: max_steps + 1 steps, last collection never reported, "
+              "model vars by position vs agent records by key (DataCollector._collection_steps added). Oracle/T2-only: multiprocessing "
+              "itself (4 / 40 spawned calls, delivery order really permuted), numpy and other pass-through value types, display_progress, "
+              "the caller's parameters staying unmodified. Trusted: Coq kernel, pyexpr translator, the driver/observer, the mirrored "
+              "model class. No axioms.")
+TECHNIQUE = ("Coq proof (induction, permutation lemmas, invariants of the script language, refinement via C12, closed under global context) "
+             "+ code-level T1 translation with bridge lemmas + vm_compute correspondence + independent by-hand oracle")
 DESIGN_REF = "DESIGN.md section 4, C13"
